@@ -366,6 +366,15 @@ func runEditCollPair(c *CaseDesc) []string {
 	return withPair(out, "fresh-names", v2, sb.diff(summarize(v2, true)))
 }
 
+// insUnused puts an Unused parameter at a position chosen by the case's generator (not only last: what follows it must
+// still be looked at position by position)
+func insUnused(rng *rand.Rand, in []int) []int {
+	pos := rng.Intn(len(in) + 1)
+	out := append([]int{}, in[:pos]...)
+	out = append(out, cUnus)
+	return append(out, in[pos:]...)
+}
+
 func runNeutralPairs(c *CaseDesc, rng *rand.Rand) []string {
 	base := runCase(c)
 	sb := summarize(base, true)
@@ -409,13 +418,13 @@ func runNeutralPairs(c *CaseDesc, rng *rand.Rand) []string {
 		c2 := c.clone()
 		fin := c2.Provs[len(c2.Provs)-1]
 		if !contains(fin.In, cUnus) {
-			fin.In = append(fin.In, cUnus)
+			fin.In = insUnused(rng, fin.In)
 			add("unused-final", runCase(c2))
 		}
 		for _, p := range c.Provs[:len(c.Provs)-1] {
 			if p.Required && p.Kind != "lit" && !contains(p.In, cUnus) {
 				c3 := c.clone()
-				c3.provOf(p.Idx).In = append(c3.provOf(p.Idx).In, cUnus)
+				c3.provOf(p.Idx).In = insUnused(rng, c3.provOf(p.Idx).In)
 				add(fmt.Sprintf("unused-required:%d", p.Idx), runCase(c3))
 				break
 			}
@@ -440,19 +449,19 @@ func runNeutralPairs(c *CaseDesc, rng *rand.Rand) []string {
 			cb := c.clone()
 			cb.provOf(p.Idx).Required = true
 			cv := cb.clone()
-			cv.provOf(p.Idx).In = append(cv.provOf(p.Idx).In, cUnus)
+			cv.provOf(p.Idx).In = insUnused(rng, cv.provOf(p.Idx).In)
 			b := runCase(cb)
 			v := runCase(cv)
 			out = withPair(out, fmt.Sprintf("unused-made-required:%d", p.Idx), v, summarize(b, true).diff(summarize(v, true)))
 		}
 		if !contains(c.InvIn, cUnus) {
 			c4 := c.clone()
-			c4.InvIn = append(c4.InvIn, cUnus)
+			c4.InvIn = append(c4.InvIn, cUnus) // (last: the scripted invoke arguments are tagged by position)
 			add("unused-invoke", runCase(c4))
 		}
 		if c.HasInit && !contains(c.InitIn, cUnus) {
 			c5 := c.clone()
-			c5.InitIn = append(c5.InitIn, cUnus)
+			c5.InitIn = append(c5.InitIn, cUnus) // (last, as for invoke)
 			add("unused-init", runCase(c5))
 		}
 	}
